@@ -95,3 +95,54 @@ Proof.
   intros t th Ht. destruct N as [_ _ _ NT]. apply (NT _ _ Ht).
 Qed.
 
+
+(* ---- non-vacuity witnesses ---- *)
+(* W6: a failed Prepare AND an ErrBadConn eviction, each deleting its own entry: no theft;
+   after the final Close one pool-level statement was prepared and nothing is left open *)
+Definition w6_progs := [[OExec 0 false true]; [OExec 0 false true]; [OClose]].
+Definition w6_sched := prep_ok 0 ++ [(0, CExecBad)] ++ tau 0 4 ++ tau 1 6 ++ [(1, CPrepFail)]
+  ++ tau 1 4 ++ tau 3 1 ++ tau 2 4.
+(* W7: two goroutines ask for the same text at the same time: one Prepare call, both ROk *)
+Definition w7_progs := [[OExec 0 false true]; [OExec 0 false true]].
+Definition w7_sched := tau 0 6 ++ tau 1 3 ++ [(0, CPrepOk)] ++ tau 0 4 ++ tau 1 2
+  ++ [(1, CExecOk); (0, CExecOk)] ++ tau 0 2 ++ tau 1 2.
+
+Lemma w6_instance :
+  exists s, run (init w6_progs) w6_sched = Some s /\ all_done s = true /\ s_stolen s = false
+            /\ s_map s = None /\ s_prep s = [(0, 0, false)] /\ s_fails s = [0] /\ s_evicts s = [0].
+Proof.
+  destruct (run_witness w6_progs w6_sched
+    (fun s => all_done s && negb (s_stolen s) && map_is_nil s
+              && nl_eqb (map (fun p => fst (fst p)) (s_prep s)) [0]
+              && nl_eqb (map (fun p => snd (fst p)) (s_prep s)) [0]
+              && nl_eqb (map (fun p => C14_Check.b2n (snd p)) (s_prep s)) [0]
+              && nl_eqb (s_fails s) [0] && nl_eqb (s_evicts s) [0])) as [s [R H]];
+    [vm_compute; reflexivity|].
+  exists s. repeat (apply andb_prop in H; let H2 := fresh "G" in destruct H as [H H2]).
+  split; [exact R|]. split; [exact H|]. split; [destruct (s_stolen s); [discriminate|reflexivity]|].
+  split; [apply map_is_nil_eq; assumption|].
+  apply nl_eqb_eq in G, G0, G1, G2, G3.
+  split; [|split; assumption].
+  clear R. destruct (s_prep s) as [|[[a b] c] [|x r]]; try discriminate. cbn in G1, G2, G3.
+  inversion G3; inversion G2; subst. destruct c; [discriminate|reflexivity].
+Qed.
+
+Lemma w7_instance :
+  (forall p, In p w7_progs -> Forall is_exec p) /\ no_faults w7_sched /\
+  exists s, run (init w7_progs) w7_sched = Some s /\ all_done s = true /\ s_calls s = [(0, false)]
+            /\ results s = [[ROk]; [ROk]].
+Proof.
+  split; [|split].
+  - intros p Hp. cbn in Hp. destruct Hp as [<-|[<-|[]]]; repeat constructor.
+  - intros t c H. cbv in H.
+    repeat (destruct H as [H|H]; [inversion H; subst; auto|]). destruct H.
+  - destruct (run_witness w7_progs w7_sched
+      (fun s => all_done s && nl_eqb (map fst (s_calls s)) [0]
+                && nl_eqb (map (fun p => C14_Check.b2n (snd p)) (s_calls s)) [0]
+                && res_eqb (results s) [[ROk]; [ROk]])) as [s [R H]];
+      [vm_compute; reflexivity|].
+    exists s. repeat (apply andb_prop in H; let H2 := fresh "G" in destruct H as [H H2]).
+    split; [exact R|]. split; [exact H|]. split; [|apply res_eqb_eq; assumption].
+    apply nl_eqb_eq in G0, G1. clear R. destruct (s_calls s) as [|[a b] [|x r]]; try discriminate. cbn in G0, G1.
+    inversion G1; inversion G0; subst. destruct b; [discriminate|reflexivity].
+Qed.
